@@ -143,6 +143,27 @@ pub fn record_c05(args: &Args, mut out: Out) -> usize {
         l.push(("KK".to_string(), ":0.125"));
         lists.push(l);
     }
+    // more tokens than there are combos: all 1,326 combos as card pairs with one weight, followed by tokens that re-weight some of them
+    {
+        let suit_ch = ['s', 'h', 'd', 'c'];
+        let rk = crate::proj::RANK_CH;
+        let mut l: Vec<(String, &str)> = vec![];
+        for a in 0..52usize {
+            for b in (a + 1)..52 {
+                let (x, y) = if (a + b) % 3 == 0 { (b, a) } else { (a, b) };
+                l.push((format!("{}{}{}{}", rk[x / 4], suit_ch[x % 4], rk[y / 4], suit_ch[y % 4]), ":0.5"));
+            }
+        }
+        let mut l2 = l.clone();
+        l.extend([("AA".to_string(), ""), ("72o".to_string(), ":0.25"), ("T9s-T6s".to_string(), ":0.333"), ("AsKs".to_string(), ":0")]);
+        lists.push(l);
+        // and the 1,326 ordered the other way round, each written twice (2,652 tokens), the second time with another weight
+        l2.reverse();
+        let again: Vec<(String, &str)> = l2.iter().map(|(b, _)| (b.clone(), ":0.1")).collect();
+        l2.extend(again);
+        l2.push(("22+".to_string(), ":1"));
+        lists.push(l2);
+    }
     // sandwiches: a token repeated verbatim (or with another weight) around a token that overlaps it; the last one wins.
     // These lists are written without random spaces, so that the repeated token is the same text
     let mut plain: Vec<usize> = vec![];
@@ -465,6 +486,20 @@ fn shaped(rng: &mut Rng, edits: usize, sfx_len: usize) -> Vec<String> {
             out.push(format!("{}{}", r, l));
         }
     }
+    // weights written with digits that are not ASCII (Unicode-aware `\\d` accepts them; a float parser does not)
+    for r in ["AA", "KK+", "AKs-A9s", "AsKs", "93o"] {
+        for w in [":0.\u{665}", ":\u{660}", ":1.\u{660}", ":\u{ff10}.5", ":0.\u{ff15}", ":0.2\u{96b}", ":\u{1d7d8}", ":0.\u{1d7dd}", ":\u{661}"] {
+            out.push(format!("{}{}", r, w));
+        }
+    }
+    // long inputs in which multi-byte characters sit across every byte offset a fixed-width cut might use
+    for lead in 0..4usize {
+        for (ch, reps) in [('\u{e9}', 140usize), ('\u{20ac}', 100), ('\u{1f600}', 80)] {
+            let tail: String = std::iter::repeat(ch).take(reps).collect();
+            out.push(format!("{}{}", "A".repeat(lead), tail));
+            out.push(format!("{}{}{}", "As".repeat(lead), tail, "Ks"));
+        }
+    }
     // a well-formed token with up to two characters of garbage in front of it, behind it, or both (multi-byte characters
     // shift every byte offset a parser may have computed from the shape it recognised)
     {
@@ -649,7 +684,7 @@ fn ctok_event(kind: &'static str, t: &'static str, h: usize, k: usize, e: usize,
     ));
 }
 
-const CW: [f32; 10] = [1.0, 0.0, 1e-45, 0.1, 0.99999994, 0.5, 1e-10, 0.3, 1.1754944e-38, 0.33333334];
+const CW: [f32; 11] = [1.0, 0.0, 1e-45, 0.1, 0.99999994, 0.5, 1e-10, 0.3, 1.1754944e-38, 0.33333334, f32::from_bits(0x15ae_43fd)];
 
 pub fn record_ctok(args: &Args, out: &mut Out) {
     let mut rng = Rng::new(args.num("seed", 1) ^ 0xC70C);
